@@ -26,6 +26,12 @@ with the field's own address -- never the expander's match arms):
 Shapes `sole_unit` / `sole_tuple` / `sole_named`: exactly ONE non-ignored variant among ignored ones (the partition property
 with a one-element enabled set), the enabled variant carrying an ignored field between two same-typed non-ignored ones.
 Every owned/ref/ref_mut selection (none, `ref`, `ref_mut`, `ref, ref_mut`) occurs alone in the quick tier for Unwrap and TryUnwrap.
+Shapes `ign_first` / `ign_mid` (an ignored variant before >= 2 same-payload variants) come as ONE PROGRAM PER ACCESSOR
+(`*_only_<x>`, Gen.only): a module that calls a single accessor still builds when another accessor is missing or misnamed, so a
+right name carrying the wrong variant's body is a value-level counterexample (Ok side and never-returns side), not only a build failure.
+Shape `ign_then_mark`: leading `#[x(ignore)]` variant, attribute-less variants, later a variant with an enabling attribute
+(`#[try_into(ref)]`, `#[unwrap(ref)]`, `#[try_unwrap(ref_mut)]`, bare `#[is_variant]`), no enum-level attribute: the attribute-less
+variants are non-ignored, so their owned accessors exist / they stay in the owned TryFrom group.  Only owned forms are called there.
 
 "does not return" (kind="no_return" harnesses, see AUTHORING.md): `#[kani::proof] #[kani::should_panic]`, the input is
 restricted (kani::assume) to the wrong variants, the accessor is called and the next statement is
@@ -115,9 +121,11 @@ class F:
 
 
 class V:
-    def __init__(self, name, kind="unit", fields=(), ignore=()):
+    def __init__(self, name, kind="unit", fields=(), ignore=(), mark=None):
         # kind: unit | tuple | named ; ignore: subset of {"is_variant","unwrap","try_unwrap","try_into"}
+        # mark: {derive: "ref" | "ref_mut" | "owned" | ""}: an ENABLING variant-level attribute (`#[unwrap(ref)]`, bare `#[is_variant]`)
         self.name, self.kind, self.fields, self.ignore = name, kind, list(fields), set(ignore)
+        self.mark = dict(mark or {})
         self.snake = snake(name)
 
     def anypat(self):
@@ -134,6 +142,8 @@ class V:
     def decl(self, derives):
         attrs = "".join("    #[%s(ignore)]\n" % a for a in ("is_variant", "unwrap", "try_unwrap", "try_into")
                         if a in self.ignore and a in derives)
+        attrs += "".join("    #[%s%s]\n" % (a, "(%s)" % self.mark[a] if self.mark[a] else "")
+                         for a in ("is_variant", "unwrap", "try_unwrap", "try_into") if a in self.mark and a in derives)
 
         def fd(f):
             ig = "#[try_into(ignore)] " if (f.ti_ignore and "try_into" in derives) else ""
@@ -233,6 +243,18 @@ def shapes():
         N("SkippedN", F("P1", name="x"), F("P1", name="z"), ignore=ALLD),
         N("Only", F("P1", name="x"), F("P1", name="y", ti_ignore=True), F("P1", name="z")),
         T("SkippedT", "P1", "P1", ignore=ALLD), U("SkippedU", ignore=ALLD)])
+    # an ignored variant FIRST / in the MIDDLE, followed by >= 2 variants with the same payload type (used with `only=`: one program
+    # per accessor, see Gen.only)
+    S["ign_first"] = Shape("ign_first", [U("Zero", ignore=ALLD), T("One", "P1"), T("Two", "P1"), T("Three", "P1")])
+    S["ign_mid"] = Shape("ign_mid", [T("One", "P1"), T("Mid", "P1", ignore=ALLD), T("Two", "P1"), T("Three", "P1")])
+    # deny-list mode is decided by the FIRST attributed variant: a leading `ignore`, attribute-less variants, and a later variant
+    # carrying an enabling attribute.  The attribute-less variants are non-ignored variants in the sense of the property statement
+    # (and are enabled on the tree this was written against); all share one payload type, so that a variant dropped from the
+    # TryFrom group is an `Err` for a value that must convert, not a missing impl.  No enum-level attribute.
+    S["ign_then_mark"] = Shape("ign_then_mark", [
+        T("Hidden", "P1", ignore=ALLD), T("Plain", "P1"),
+        T("Shared", "P1", mark={"is_variant": "", "unwrap": "ref", "try_unwrap": "ref_mut", "try_into": "ref"}),
+        T("PlainTwin", "P1")])
     # thorough-only shapes
     S["single"] = Shape("single", [T("Value", "P1")])
     S["triples"] = Shape("triples", [
@@ -272,8 +294,12 @@ def conj(parts):
 class Gen:
     """generates one program for (shape, derives, attribute selection)"""
 
-    def __init__(self, key, shape, derives, forms, attr_args, with_contract=False, with_control=False):
+    def __init__(self, key, shape, derives, forms, attr_args, with_contract=False, with_control=False, only=None):
         self.key, self.shape, self.derives, self.forms = key, shape, derives, forms
+        # only: names of the variants whose accessors this program calls (None = every non-ignored variant).  A program that calls a
+        # single accessor still builds when ANOTHER accessor is missing / misnamed, so that a right name carrying the wrong variant's
+        # body is seen as a value-level counterexample and not only as a build failure of the whole module.
+        self.only = only
         self.attr_args = attr_args          # {derive attr name: "ref, ref_mut"} enum-level attribute arguments
         self.with_contract, self.with_control = with_contract, with_control
         self.vs = shape.variants
@@ -308,7 +334,7 @@ impl kani::Arbitrary for Ty {
            arms="\n".join(arms))
 
     def enabled(self, derive):
-        return [v for v in self.vs if derive not in v.ignore]
+        return [v for v in self.vs if derive not in v.ignore and (self.only is None or derive == "try_into" or v.name in self.only)]
 
     # -- IsVariant -----------------------------------------------------------------------------
     def gen_is(self):
@@ -619,7 +645,10 @@ impl kani::Arbitrary for Ty {
             self.gen_try_into()
         src = "#![allow(unreachable_patterns, clippy::all)]\nuse crate::common::*;\n\n" + self.typedef() + "\n" + "\n\n".join(self.posts) + \
               "\n\n#[cfg(kani)]\nmod proofs {\n    use super::*;\n" + "\n".join(self.proofs) + "\n    // PLAYBACK-INSERTION-POINT\n}\n"
-        return Program(self.key, self.shape.title(self.derives, " ".join(self.enum_attr().split())), src, self.hs)
+        title = self.shape.title(self.derives, " ".join(self.enum_attr().split()))
+        if self.only:
+            title += "   [only the accessors of %s are called]" % ", ".join(self.only)
+        return Program(self.key, title, src, self.hs)
 
 
 ALL3 = ("owned", "ref", "mut")
@@ -644,7 +673,7 @@ def programs(tier):
     P = []
     first = {"contract": True, "control": True}
 
-    def add(prefix, shape, derives, sel_key=None):
+    def add(prefix, shape, derives, sel_key=None, only=None):
         if derives == ("is_variant",):
             key, forms, attr = "%s_%s" % (prefix, shape), (), {}
         elif derives == ("try_into",):
@@ -656,7 +685,9 @@ def programs(tier):
         else:
             forms = ALL3
             key, attr = "%s_%s" % (prefix, shape), {"unwrap": "ref, ref_mut", "try_unwrap": "ref, ref_mut", "try_into": "owned, ref, ref_mut"}
-        g = Gen(key, S[shape], derives, forms, attr)
+        if only:
+            key += "_only_" + "_".join(snake(o) for o in only)
+        g = Gen(key, S[shape], derives, forms, attr, only=only)
         if "is_variant" in derives and first["control"]:
             g.with_control, first["control"] = True, False
         if "try_unwrap" in derives and first["contract"]:
@@ -685,17 +716,33 @@ def programs(tier):
     # A selected accessor that is not generated does not build: reported as `<key>/expansion`.
     add("unw", "maybe", ("unwrap",), "owned")
     add("tun", "maybe", ("try_unwrap",), "mutonly")
+    # ignored variant first / in the middle before same-payload variants: one program per accessor (Ok side + never-returns side)
+    for s in ("ign_first", "ign_mid"):
+        for o in ("One", "Two", "Three"):
+            add("unw", s, ("unwrap",), "ref", only=(o,))
+            add("tun", s, ("try_unwrap",), "ref", only=(o,))
+    # leading `ignore` + later enabling variant attribute: the attribute-less variants keep their accessors / stay in the TryFrom group.
+    # Only the owned forms are called: what a variant-level `ref` / `ref_mut` selects is not settled by the property statement.
+    add("isv", "ign_then_mark", ("is_variant",))
+    add("unw", "ign_then_mark", ("unwrap",), "owned")
+    add("tun", "ign_then_mark", ("try_unwrap",), "owned")
+    add("tin", "ign_then_mark", ("try_into",), "owned")
     if tier == "thorough":
         extra = ["single", "triples", "empties", "names2", "lifetimes"]
         for s in extra + ["generic_ti"]:
             add("isv", s, ("is_variant",))
-        for s in core_shapes + extra + ["sole_unit", "sole_tuple"]:
+        for s in ("ign_first", "ign_mid"):
+            for o in ("One", "Two", "Three"):
+                for sel in ("owned", "all", "mutonly"):
+                    add("unw", s, ("unwrap",), sel, only=(o,))
+                    add("tun", s, ("try_unwrap",), sel, only=(o,))
+        for s in core_shapes + extra + ["sole_unit", "sole_tuple", "ign_first", "ign_mid"]:
             for sel in ("owned", "all", "ref", "mutonly"):
                 if ("unw_%s_%s" % (s, sel)) not in {p.key for p in P}:
                     add("unw", s, ("unwrap",), sel)
                 if ("tun_%s_%s" % (s, sel)) not in {p.key for p in P}:
                     add("tun", s, ("try_unwrap",), sel)
-        for s in ["maybe", "shared", "names", "ignored", "generic_ti"] + extra + ["sole_unit", "sole_tuple", "sole_named"]:
+        for s in ["maybe", "shared", "names", "ignored", "generic_ti"] + extra + ["sole_unit", "sole_tuple", "sole_named", "ign_first", "ign_mid"]:
             for sel in ("owned", "all", "ref", "mut", "ownedref"):
                 if ("tin_%s_%s" % (s, sel)) not in {p.key for p in P}:
                     add("tin", s, ("try_into",), sel)
@@ -729,7 +776,9 @@ def family(tier, seed):
             "snake_case rule used by the generator: split at `_`, lower->Upper, letter<->digit, and before the last capital of an upper-case "
             "run that is followed by a lower-case letter; lower-case the words; join with `_` (V2 -> v_2, XMLThing -> xml_thing)",
             "noret_* harnesses use kani::assume(!matches!(v, X ..)) to restrict the input to the wrong variants",
-            "variant-level #[unwrap(ref)]/#[try_unwrap(ref)] selections are NOT in the family (see report: they do not generate the documented accessor)",
+            "variant-level #[unwrap(ref)]/#[try_unwrap(ref)] selections are NOT in the family (see report: they do not generate the documented accessor); "
+            "shape ign_then_mark carries such an attribute only as a marker and calls the owned forms only. Enums whose FIRST attributed variant "
+            "is an enabling one (allow-list mode: attribute-less variants are then dropped by the macro) are not in the family",
         ],
         rule="one program per (enum shape x derive x owned/ref/ref_mut selection); per program one harness per accessor kind quantifying over "
              "every value of the enum and every non-ignored variant's accessor, one should_panic harness per (variant, unwrap form) for the "
